@@ -5,7 +5,8 @@
    net indentation along every path, iostream manipulators) and from the current Visitor interface
    (GenVisitor: default forwarding). *)
 From Coq Require Import List String Bool Arith ZArith Lia.
-From IprV Require Import GenTypes Schema Visitor PrinterDispatch.
+From Coq Require Import NArith.
+From IprV Require Import GenTypes Schema Visitor PrinterDispatch LiteralModel.
 From IprV.gen Require Import GenVisitor GenIface GenCategory GenPrinter.
 Import ListNotations.
 Local Open Scope string_scope.
@@ -177,7 +178,21 @@ Proof. reflexivity. Qed.
 Lemma no_opaque_handler : forallb (fun h => negb (existsb is_opaque (ph_actions h))) gen_pr_handlers = true.
 Proof. vm_compute. reflexivity. Qed.
 
+(* the literal-escaping switch of today's source, read as a table *)
+Definition lit_table : list (list (option N) * list lit_piece) := match gen_pr_literal with Some t => t | None => [] end.
+Lemma literal_table_ok : table_ok lit_table = true.
+Proof. vm_compute. reflexivity. Qed.
+
 (* ---- property theorems ---- *)
+(* for every spelling over all byte values: the literal printer writes no control byte that the spelling does not
+   contain (newline, tab, NUL, ... come out as two-character escapes), and the numbers it writes are decimal *)
+Theorem c18_literal_writes_no_new_control_byte : forall s, (forall b, In b s -> (b < 256)%N) ->
+  exists out, escape lit_table s = Some out /\ forall x, In x out -> (x < 32)%N -> In x s.
+Proof. exact (escape_writes_no_new_control_byte lit_table literal_table_ok). Qed.
+Theorem c18_literal_numbers_are_decimal :
+  (forall n, (n < 256)%N -> forall d, In d (decimal n) -> (48 <= d <= 57)%N) /\
+  forallb (fun n => N.eqb (value_of (decimal n)) n) (map N.of_nat (seq 0 256)) = true.
+Proof. split; [exact decimal_digits|exact decimal_value]. Qed.
 Theorem c18_same_node_dispatch_acyclic : acyclic_all = true.
 Proof. exact same_node_dispatch_acyclic. Qed.
 Theorem c18_printing_terminates : forall n t s,
@@ -212,6 +227,8 @@ Example c18_example_unguarded_type_cycle_is_detected :
   acyclic gen_pr_classes unguarded forward is_type_kind 64 [] (entry "xpr_type_visitor" "Tor") = false.
 Proof. vm_compute. reflexivity. Qed.
 
+Print Assumptions c18_literal_writes_no_new_control_byte.
+Print Assumptions c18_literal_numbers_are_decimal.
 Print Assumptions c18_same_node_dispatch_acyclic.
 Print Assumptions c18_printing_terminates.
 Print Assumptions c18_indentation_balanced.
